@@ -95,6 +95,16 @@ class Const:
         return hash(repr(self.v))
 
 
+class BoundRe:
+    """A bound method of a compiled pattern / match object held in a variable."""
+
+    def __init__(self, obj, name):
+        self.obj, self.name = obj, name
+
+    def __repr__(self):
+        return "<%s of %r>" % (self.name, self.obj)
+
+
 class LamV:
     """A lambda of the interpreted function as a value (called later, in the state of that moment)."""
 
@@ -691,6 +701,9 @@ class Interp:
                     res.append((Exc("AttributeError", e), s))
                 elif isinstance(v, Const) and isinstance(v.v, _re.Match) and e.attr in ("lastgroup", "lastindex", "string", "pos", "endpos"):
                     res.append((Const(getattr(v.v, e.attr)), s))
+                elif isinstance(v, Const) and isinstance(v.v, (_re.Pattern, _re.Match)) and e.attr in (
+                        "match", "search", "fullmatch", "sub", "findall", "split", "finditer", "group", "groups", "start", "end", "span", "groupdict"):
+                    res.append((Const(BoundRe(v.v, e.attr)), s))  # `match = PATTERN.match` - called later
                 elif isinstance(v, Const) and isinstance(v.v, _re.Pattern) and e.attr in ("pattern", "flags", "groups", "groupindex"):
                     res.append((Const(dict(v.v.groupindex) if e.attr == "groupindex" else getattr(v.v, e.attr)), s))
                 elif isinstance(v, Const) and isinstance(v.v, Rec):
@@ -986,6 +999,12 @@ class Interp:
                 rec = Rec(f.id, **{k_: v_.v for k_, v_ in vals.items()})
                 rec.order = [fn_ for fn_, _ in flds]
                 return [(Const(rec), st)]
+        if isinstance(callee, Const) and isinstance(callee.v, BoundRe) and all(isinstance(a, Const) for a in list(args) + list(kw.values())):
+            try:
+                r_ = getattr(callee.v.obj, callee.v.name)(*[a.v for a in args], **{k: v.v for k, v in kw.items()})
+                return [(Const(list(r_) if callee.v.name == "finditer" else r_), st)]
+            except Exception as ex:
+                return [(Exc(type(ex).__name__, e), st)]
         if isinstance(callee, Const) and isinstance(callee.v, LamV) and not kw and len(args) == len(callee.v.node.args.args):
             s2 = st.copy()
             saved = {}
